@@ -158,19 +158,3 @@ func specIntPayload(dst []byte, base int, it *IntItem, w int, cnt int) bool {
 //@                  specHdrAt(result, len(old(dst)), specIntFC(item.byteSize), int(item.size)*int(item.byteSize))
 //@ ensures [be]     item.itemErr == nil && item.rawPtr == nil ==>
 //@                  specIntPayload(result, len(old(dst))+1+specNLB(int(item.size)*int(item.byteSize)), item, int(item.byteSize), int(item.size))
-//@ loop 1 invariant [len]    len(dst) == len(old(dst)) + 1 + specNLB(int(item.size)) + zzIter()
-//@ loop 1 invariant [prefix] specPrefix(dst, old(dst)) && specSameOrFresh(dst, old(dst))
-//@ loop 1 invariant [hdr]    specHdrAt(dst, len(old(dst)), 0o31, int(item.size))
-//@ loop 1 invariant [be]     specIntPayload(dst, len(old(dst))+1+specNLB(int(item.size)), item, 1, zzIter())
-//@ loop 2 invariant [len]    len(dst) == len(old(dst)) + 1 + specNLB(2*int(item.size)) + 2*zzIter()
-//@ loop 2 invariant [prefix] specPrefix(dst, old(dst)) && specSameOrFresh(dst, old(dst))
-//@ loop 2 invariant [hdr]    specHdrAt(dst, len(old(dst)), 0o32, 2*int(item.size))
-//@ loop 2 invariant [be]     specIntPayload(dst, len(old(dst))+1+specNLB(2*int(item.size)), item, 2, zzIter())
-//@ loop 3 invariant [len]    len(dst) == len(old(dst)) + 1 + specNLB(4*int(item.size)) + 4*zzIter()
-//@ loop 3 invariant [prefix] specPrefix(dst, old(dst)) && specSameOrFresh(dst, old(dst))
-//@ loop 3 invariant [hdr]    specHdrAt(dst, len(old(dst)), 0o34, 4*int(item.size))
-//@ loop 3 invariant [be]     specIntPayload(dst, len(old(dst))+1+specNLB(4*int(item.size)), item, 4, zzIter())
-//@ loop 4 invariant [len]    len(dst) == len(old(dst)) + 1 + specNLB(8*int(item.size)) + 8*zzIter()
-//@ loop 4 invariant [prefix] specPrefix(dst, old(dst)) && specSameOrFresh(dst, old(dst))
-//@ loop 4 invariant [hdr]    specHdrAt(dst, len(old(dst)), 0o30, 8*int(item.size))
-//@ loop 4 invariant [be]     specIntPayload(dst, len(old(dst))+1+specNLB(8*int(item.size)), item, 8, zzIter())
